@@ -68,7 +68,7 @@ type svdCfg struct {
 }
 
 func genDgesvd(g *vlib.G) {
-	lim := p3(g, 6, 9, 12)
+	lim := p3(g, 6, 9, 11)
 	profs := profSet(g, 4)
 	// leading dimensions vary independently: (lda, ldu, ldvt) paddings all different
 	ldsSmall := [][3]int{{0, 0, 0}, {2, 1, 3}}
